@@ -21,6 +21,7 @@ ALEN = 6 if THOROUGH else 5
 NASTR = NALPHA ** ALEN
 
 MSGS = [
+    'MSH|^~\\&|A|B|C|D|2008||VXU^V04^VXU_V04|1|P|2.8.2\rPID|1||1\rORC|RE\rRXA|0|1|2008|2008|x^y|1|||||abc',     # RXA-11: datatype LA2, not defined in 2.8.2
     'MSH|^~\\&|A|B|||2020||ADT^A01|1|P|2.5\rPID|1||X^^^H&I||S^N~T\rZZZ|1',
     'MSH|^~\\&#|A|B|||2020||ADT^A01^ADT_A01|1|P|2.7\rEVN||2020\rPID|1||X^^^H&I||S',
     'MSH|^~\\&|A|B|||2020||ORU^R01|1|P|2.3\rPID|||1\rOBX|1|NM|A||1.5',
@@ -182,6 +183,36 @@ def _ob_mut(mi: int, kind: int, p: int, strict: bool) -> bool:
         return not _parse_all(_mutate(MSGS[mi], kind, p), level).startswith('crash')
 
 
+# ---- P.rows: a value at EVERY field position of every segment of every version (table-driven crashes) ---------------------------
+from harness import tables as _T      # noqa: E402
+from harness.c02 import bsearch as _bs   # noqa: E402
+FIELD_ROWS = [r for r in _T.field_rows() if _T.SEGS[_T.VERSIONS[r[0]]][r[1]] != 'MSH']
+NROWS = len(FIELD_ROWS)
+ROW_VALUES = ['1^2&3~4^5'] + (['abc'] if THOROUGH else [])
+NRV = len(ROW_VALUES)
+
+
+def row_text(r, vi_):
+    vi, si, k = FIELD_ROWS[r]
+    v = _T.VERSIONS[vi]
+    seg = _T.SEGS[v][si]
+    n = _T.child_number(_T.seg_children(v, seg)[k][0])
+    return 'MSH|^~\\&|A|B|C|D|2020||ADT^A01^ADT_A01|1|P|%s\r%s%s%s' % (v, seg, '|' * n, ROW_VALUES[vi_])
+
+
+def _ob_rows(r: int, vi_: int, strict: bool) -> bool:
+    """
+    pre: 0 <= r < NROWS and 0 <= vi_ < NRV
+    pre: in_part(r)
+    post: _
+    """
+    r, vi_ = _bs(r, NROWS), _bs(vi_, NRV)
+    level = 1 if strict else 2
+    with concrete():
+        reset_defaults()
+        return not _parse_all(row_text(r, vi_), level).startswith('crash')
+
+
 def _ob_name(which: int, ni: int, strict: bool) -> bool:
     """
     pre: 0 <= which < 3 and 0 <= ni < len(NAMES)
@@ -232,5 +263,8 @@ SPEC = {
          'bound': '%d concrete messages x %d mutation kinds of {truncate,delete,duplicate,insert CR} x every position x both levels' % (NMSG, KINDS)},
         {'name': 'P.name', 'fn': '_ob_name', 'parts': 16, 'cond_timeout': {'quick': 150, 'thorough': 900}, 'path_timeout': 40,
          'bound': 'segment name / MSH-9 / MSH-12 replaced by each of %d catalogue strings (symbolic index), both levels' % len(NAMES)},
+        {'name': 'P.rows', 'fn': '_ob_rows', 'parts': 32, 'cond_timeout': {'quick': 900, 'thorough': 3000}, 'path_timeout': 40,
+         'bound': 'a message with a value (%r) at EVERY field position of every non-MSH segment of every version (%d rows), both levels: '
+                  'parse, encode and validate raise nothing but the allowed exceptions' % (ROW_VALUES, NROWS)},
     ],
 }
